@@ -4,6 +4,10 @@ import AbraModel.Drv.Util
    `srcmap build <line>*`            line = `L` | `<file>:<lineno>:<func>`  → the three tables
    `srcmap locs <line>*`             → lookup (pc+1) on the built tables for every instruction index pc
    `srcmap render <kind-hex> <loc>*` loc = `<file-hex>:<lineno>:<func-hex>` → hex of the `VmError` text -/
+/- Note: every instruction of a request is parsed with kind `other` (the requests carry annotations only).  The
+   driver therefore exercises `build`, `lookup` and `renderTrace`; the call/return part of the model (`Step`,
+   `Reachable`, `stackTrace`) meets the real VM only through the rendered chain that the harness compares with the
+   `VmError` text of programs whose expected frames are known to the generator. -/
 namespace Abra.Drv.SrcMapD
 open Abra.SrcMap Abra.Drv
 
